@@ -25,6 +25,13 @@
  *   run                     run queued jobs until none is left                        -> ok
  *   half P | halfgone P     raw peer P connects and sends nothing / closes (pending handshake) -> ok | skip
  *   finish                  drop all app references, all clients go away, destroy, run -> finished
+ *   sendn K N               client K queues N requests (1..12) BEFORE the loop runs (a pipelining client),
+ *                           then the loop runs until idle                                 -> ok | skip
+ *   rate slow|normal|fast   qb_ipcs_request_rate_limit                                   -> ok | skip
+ *   fault add|mod|del N     fault injection in the application's poll handlers: the N-th call from now of
+ *                           dispatch_add / dispatch_mod / dispatch_del returns an error (add, mod: without doing
+ *                           anything; del: after removing the descriptor)                -> ok
+ *                           a connect / half whose handshake socket could not be added answers `refused`
  */
 #include "hl_loop.h"
 
@@ -75,11 +82,45 @@ static int32_t lf_job_add(enum qb_loop_priority p, void *data, qb_loop_job_dispa
 	return 0;
 }
 
+/* ---- fault injection in the application's poll handlers ---------------------------------- */
+enum { F_ADD, F_MOD, F_DEL, F_N };
+static int fault_n[F_N];	/* n-th call from now fails; 0 = no fault armed */
+static int fault_fired[F_N];	/* faults injected during the current op */
+
+static int fault_hit(int k)
+{
+	if (fault_n[k] == 0) return 0;
+	if (--fault_n[k] != 0) return 0;
+	fault_fired[k]++;
+	return 1;
+}
+
+static int32_t lf_dispatch_add(enum qb_loop_priority p, int32_t fd, int32_t events,
+			       void *data, qb_ipcs_dispatch_fn_t fn)
+{
+	if (fault_hit(F_ADD)) return -ENOMEM;
+	return hl_dispatch_add(p, fd, events, data, fn);
+}
+
+static int32_t lf_dispatch_mod(enum qb_loop_priority p, int32_t fd, int32_t events,
+			       void *data, qb_ipcs_dispatch_fn_t fn)
+{
+	if (fault_hit(F_MOD)) return -ENOMEM;
+	return hl_dispatch_mod(p, fd, events, data, fn);
+}
+
+static int32_t lf_dispatch_del(int32_t fd)
+{
+	int32_t rc = hl_dispatch_del(fd);
+	if (fault_hit(F_DEL)) return -ENOENT;
+	return rc;
+}
+
 static struct qb_ipcs_poll_handlers lf_poll_handlers = {
 	.job_add = lf_job_add,
-	.dispatch_add = hl_dispatch_add,
-	.dispatch_mod = hl_dispatch_mod,
-	.dispatch_del = hl_dispatch_del,
+	.dispatch_add = lf_dispatch_add,
+	.dispatch_mod = lf_dispatch_mod,
+	.dispatch_del = lf_dispatch_del,
 };
 
 #define OUT(...) do { if (!quiet) printf(__VA_ARGS__); } while (0)
@@ -296,6 +337,7 @@ static void teardown(void)
 	svc_destroyed = 0;
 	nconn = 0;
 	job_head = job_tail = 0;
+	for (k = 0; k < F_N; k++) fault_n[k] = fault_fired[k] = 0;
 	for (k = 0; k < K_N; k++) q_head[k] = q_tail[k] = 0;
 	for (k = 0; k < MAXK; k++) { clients[k].c = NULL; clients[k].cid = 0; halfs[k] = -1; }
 	quiet = 0;
@@ -361,6 +403,7 @@ int main(void)
 			continue;
 		}
 		if (svc == NULL) { printf("bad-op\n"); continue; }
+		for (i = 0; i < F_N; i++) fault_fired[i] = 0;
 
 		if (!strcmp(op, "connect") && A >= 0 && A < MAXK) {
 			struct cjob j = { .k = A };
@@ -381,7 +424,7 @@ int main(void)
 				client_gone(A);
 				pump();
 			}
-			if (i == 0) printf("%s\n", j.rc ? vl_errname(j.rc) : "no-accept");	/* never reached the service */
+			if (i == 0) printf("refused\n");	/* never reached the service: the handshake socket was dropped */
 			else if (accept_ret != 0) printf("%s\n", vl_errname(accept_ret));
 			else if (j.rc != 0 && !conns[i].aborted) printf("%s\n", vl_errname(j.rc));
 			else printf("ok\n");
@@ -426,12 +469,42 @@ int main(void)
 			if (i < 0) { printf("%s\n", vl_errname(i)); continue; }
 			halfs[A] = i;
 			pump();
+			if (fault_fired[F_ADD]) {	/* the server dropped the socket: no handshake is pending */
+				close(halfs[A]);
+				halfs[A] = -1;
+				pump();
+				printf("refused\n");
+				continue;
+			}
 			printf("ok\n");
 		} else if (!strcmp(op, "halfgone") && A >= 0 && A < MAXK) {
 			if (halfs[A] < 0) { printf("skip\n"); continue; }
 			close(halfs[A]);
 			halfs[A] = -1;
 			pump();
+			printf("ok\n");
+		} else if (!strcmp(op, "sendn") && nt == 3 && A >= 0 && A < MAXK && atoi(tok[2]) >= 1 && atoi(tok[2]) <= 12) {
+			struct { struct qb_ipc_request_header hdr; char data[16]; } req;
+			int n = atoi(tok[2]);
+			if (!clients[A].c) { printf("skip\n"); continue; }
+			for (i = 0; i < n; i++) {
+				memset(&req, 0, sizeof req);
+				req.hdr.id = 100;
+				req.hdr.size = sizeof req;
+				(void)qb_ipcc_send(clients[A].c, &req, sizeof req);
+			}
+			pump();
+			printf("ok\n");
+		} else if (!strcmp(op, "rate") && nt == 2 &&
+			   (!strcmp(tok[1], "slow") || !strcmp(tok[1], "normal") || !strcmp(tok[1], "fast"))) {
+			if (svc_destroyed) { printf("skip\n"); continue; }
+			qb_ipcs_request_rate_limit(svc, tok[1][0] == 's' ? QB_IPCS_RATE_SLOW :
+						   tok[1][0] == 'f' ? QB_IPCS_RATE_FAST : QB_IPCS_RATE_NORMAL);
+			pump();
+			printf("ok\n");
+		} else if (!strcmp(op, "fault") && nt == 3 && atoi(tok[2]) >= 1 && atoi(tok[2]) <= 9 &&
+			   (!strcmp(tok[1], "add") || !strcmp(tok[1], "mod") || !strcmp(tok[1], "del"))) {
+			fault_n[tok[1][0] == 'a' ? F_ADD : tok[1][0] == 'm' ? F_MOD : F_DEL] = atoi(tok[2]);
 			printf("ok\n");
 		} else if (!strcmp(op, "finish")) {
 			finish();
